@@ -101,6 +101,7 @@ type FnExec struct {
 	freeCells map[*ssa.FreeVar]*Term // closure free variables: pointer terms
 	tuples map[ssa.Value][]*Term
 	lemmasUsed map[*Axiom]bool
+	callBindings []*Term // bindings of the closure whose contract is being applied
 	privAllocs map[*ssa.Alloc]bool
 	privRefs   map[*ssa.Alloc]*Term
 }
@@ -746,7 +747,7 @@ func (fx *FnExec) loopModSet(li *loopInfo) *modSet {
 	ms := &modSet{cells: map[*ssa.Alloc]bool{}, heaps: map[string]Sort{}, full: map[string]bool{}, sites: map[string][]ssa.Value{}}
 	for b := range li.blocks {
 		for _, ins := range b.Instrs {
-			tmp := &modSet{cells: ms.cells, heaps: map[string]Sort{}}
+			tmp := &modSet{cells: ms.cells, heaps: map[string]Sort{}, full: map[string]bool{}, sites: map[string][]ssa.Value{}}
 			fx.instrMods(ins, tmp)
 			if tmp.opaque {
 				ms.opaque = true
@@ -756,6 +757,12 @@ func (fx *FnExec) loopModSet(li *loopInfo) *modSet {
 			switch x := ins.(type) {
 			case *ssa.Store:
 				switch a := x.Addr.(type) {
+				case *ssa.FreeVar:
+					site = a
+				case *ssa.Alloc:
+					if a.Heap {
+						site = a
+					}
 				case *ssa.FieldAddr:
 					site = a.X
 				case *ssa.IndexAddr:
@@ -776,6 +783,10 @@ func (fx *FnExec) loopModSet(li *loopInfo) *modSet {
 			for h, so := range tmp.heaps {
 				ms.heaps[h] = so
 				switch {
+				case len(tmp.sites[h]) > 0:
+					ms.sites[h] = append(ms.sites[h], tmp.sites[h]...)
+				case tmp.full[h]:
+					ms.full[h] = true
 				case h == "alloc" || fresh:
 				case site != nil:
 					ms.sites[h] = append(ms.sites[h], site)
@@ -1176,6 +1187,11 @@ func (fx *FnExec) loopInvariantRef(st *State, li *loopInfo, ms *modSet, v ssa.Va
 	switch x := v.(type) {
 	case *ssa.Parameter:
 		return toRef(fx.vals[x]), false, true
+	case *ssa.FreeVar:
+		if t, ok := fx.freeCells[x]; ok {
+			return t, false, true
+		}
+		return nil, false, false
 	case *ssa.Alloc:
 		if x.Heap && li.blocks[x.Block()] {
 			return nil, true, true
